@@ -32,15 +32,210 @@ def run(repo, chk, tier):
     fn = repo.func(CR, 'compute_combined_features')
     m = fn.module
     frame, args = fn.params[0], fn.params[1]
-    inner = {q.split('.')[-1]: f for q, f in m.funcs.items() if q.startswith('compute_combined_features.')}
-    comb = next((f for f in inner.values() if any(isinstance(r.value, ast.Tuple) and len(r.value.elts) == 2 for r in returns(f)) and any(isinstance(c, ast.Call) and isinstance(c.func, ast.Attribute) and c.func.attr in ('apply', 'map') for c in ast.walk(f.node))), None)
-    if comb is None:
-        chk.unsure('C10.1', 'R12', fn.site(), 'combine_features', 'the function that hashes the joint value was not found')
-        return
-    key_encoding(repo, chk, fn, comb, inner, frame)
-    digest(repo, chk, fn, comb)
-    name_and_space(repo, chk, fn, comb, frame, args)
+    ok = path_model(repo, chk, fn, frame, args)
+    if not ok:
+        # the per-combination computation could not be written as one expression: fall back to the closure-shaped rules
+        inner = {q.split('.')[-1]: f for q, f in m.funcs.items() if q.startswith('compute_combined_features.')}
+        comb = next((f for f in inner.values() if any(isinstance(r.value, ast.Tuple) and len(r.value.elts) == 2 for r in returns(f)) and any(isinstance(c, ast.Call) and isinstance(c.func, ast.Attribute) and c.func.attr in ('apply', 'map') for c in ast.walk(f.node))), None)
+        if comb is None:
+            chk.unsure('C10.1', 'R12', fn.site(), 'combine_features', 'the per-combination computation could not be evaluated as one expression and the function that hashes the joint value was not found')
+            return
+        key_encoding(repo, chk, fn, comb, inner, frame)
+        digest(repo, chk, fn, comb)
+        name_and_space(repo, chk, fn, comb, frame, args)
     append_only(repo, chk, fn, frame)
+
+
+def _rep(t, a, b):
+    if t == a:
+        return b
+    if isinstance(t, tuple):
+        return tuple(_rep(x, a, b) for x in t)
+    return t
+
+
+def path_model(repo, chk, fn, frame, args):
+    """One selected combination, evaluated as a path (closures evaluated, the accumulation over the constituents summarised as a fold):
+    new column = HASH applied to the per-row key  ENC(c[0]) + ENC(c[1]) + ...  stored under the name join_string.join(c)."""
+    from ..match import run_paths
+    from ..terms import pattern, unify, walk_term, alpha_norm
+    m = fn.module
+    loops = [n for n in fn.node.body if isinstance(n, ast.For)]
+    best = None
+    for lp in loops:
+        paths = run_paths(fn, None, None, max_forks=3, body=lp.body, eval_closures=True)
+        if not paths or len(paths) != 1 or paths[0][1].unknown is not None:
+            continue
+        res = paths[0][1]
+        stores = [u for u in res.updates if u['kind'] == 'store1' and isinstance(u['target'], ast.Name)]
+        if len(stores) == 1 and any(isinstance(x, ast.Call) and isinstance(x.func, ast.Attribute) and x.func.attr in ('apply', 'map') for x in ast.walk(stores[0]['value'])):
+            best = (lp, res, stores[0])
+    if best is None:
+        return False
+    lp, res, st = best
+    # the loop variable that is the combination
+    cvar_names = [x.id for x in ast.walk(lp.target) if isinstance(x, ast.Name)]
+    E = lambda src, bnd=None: expected_term(m, src, bnd or {})
+    vt = term_of(fn, st['value'], inline=False)
+    kt = term_of(fn, st['key'], inline=True)
+    site = fn.site(st['node'])
+    # which loop variable is the combination: the one the name is joined from
+    comb = next((n for n in cvar_names if any(x == ('name', n) for x in walk_term(kt))), cvar_names[-1])
+    C = ('name', comb)
+    # ---- 1c a memoising encoder must not be extended in place
+    if res.memo_calls and res.inplace_folds:
+        acc, loop_node = res.inplace_folds[0]
+        chk.bad('C10.1c', 'R11', fn.site(loop_node), ast.unparse(loop_node).replace('\n', ' ')[:140], f'the key starts as the object returned by the memoising encoder `{res.memo_calls[0][0].split(".")[-1]}` (a cached Series shared between combinations, kept in `{res.memo_calls[0][1]}`) and is then extended in place with `+=`: the cached encoding of the first constituent accumulates the other constituents, so later combinations that start with the same feature encode extra columns and rows that agree on the named constituents get different values')
+    # ---- 3 name
+    flag = fn.params[3] if len(fn.params) > 3 else 'is_3mr'
+    want_name = [E(f"(' AND_REL ' if {flag} else ' AND ').join({comb})")]
+    bj = unify(pattern(m, 'J.join(X)', ['J', 'X']), kt)
+    if bj is not None and bj['X'] != C and any(x == C for x in walk_term(bj['X'])) and bj['J'] == E(f"' AND_REL ' if {flag} else ' AND '"):
+        chk.bad('C10.3', 'R15', site, ast.unparse(st['key'])[:120], f'the name lists the constituents as {show(bj["X"])[:60]}, not in the order in which their values are concatenated (candidate order): the name no longer says which value belongs to which constituent')
+    else:
+        chk.expect_term(kt, want_name, 'C10.3', 'R15', site, ast.unparse(st['key'])[:120], "name = ' AND '.join(constituents) (' AND_REL ' for 3MR relations), in candidate order",
+                    "the feature name must be join_string.join(new_combination) with join_string = ' AND_REL ' if is_3mr else ' AND '")
+    # ---- value = K.apply(H) / K.map(H)
+    b_ = None
+    for src in ('K.apply(H)', 'K.map(H)'):
+        b_ = unify(pattern(m, src, ['K', 'H']), vt)
+        if b_ is not None:
+            break
+    if b_ is None:
+        chk.unsure('C10.1', 'R12', site, ast.unparse(st['value'])[:160], 'the stored column is not recognised as <per-row key>.apply(<hash>)')
+        return True
+    K, H = b_['K'], b_['H']
+    # ---- key: all constituents, each through the same encoder
+    first = rest_gen = None
+    all_gen = None
+    if K[0] == '+' and len(K[1]) >= 2:
+        folds = [x for x in K[1] if x[:2] == ('call', ('name', '__fold_add__'))]
+        others = [x for x in K[1] if x not in folds]
+        if len(folds) == 1 and folds[0][2] and folds[0][2][0][0] == 'genexp':
+            rest_gen = folds[0][2][0]
+            first = others[0] if len(others) == 1 else ('+', tuple(others))
+    bb = unify(pattern(m, 'functools.reduce(operator.add, G)', ['G']), K)
+    if bb is not None and bb['G'][0] in ('genexp', 'listcomp'):
+        all_gen = bb['G']
+    if K[:2] == ('call', ('name', '__fold_add__')) and K[2] and K[2][0][0] == 'genexp':
+        all_gen = K[2][0]
+    # parts = [ENC(f) for f in c]; key = parts[0] + fold(parts[1:])   is the fold over all parts
+    if rest_gen is not None and len(rest_gen[2]) == 1 and not rest_gen[2][0][1] and rest_gen[1][:1] == ('cvar',):
+        src = rest_gen[2][0][0]
+        if src[0] == 'sub' and src[2] == ('slice', ('num', 1), ('none',), ('none',)) and src[1][0] in ('listcomp', 'genexp') and first == ('sub', src[1], ('num', 0)):
+            all_gen, rest_gen = src[1], None
+    gen = all_gen or rest_gen
+    if gen is None or len(gen[2]) != 1 or gen[2][0][1]:
+        raw = any(x == E(f'{frame}[{comb}[0]].astype(str)') for x in walk_term(K)) and not any(isinstance(x, tuple) and x[:1] == ('attr',) and x[2] == 'len' for x in walk_term(K))
+        if raw:
+            chk.bad('C10.1a', 'R12', site, ast.unparse(st['value'])[:160], "a constituent enters the hashed key as raw string value, no delimiter: different value tuples such as ('1', '11') and ('11', '1') yield the same string, hence the same interaction value")
+        else:
+            chk.unsure('C10.1', 'R12', site, ast.unparse(st['value'])[:160], 'the per-row key is not recognised as the concatenation of one encoded part per constituent')
+        return True
+    elt, (it, _ifs) = gen[1], gen[2][0]
+    cv = next((x for x in walk_term(elt) if isinstance(x, tuple) and len(x) == 3 and x[0] == 'cvar'), ('cvar', 0, 0))
+    P = ('role', 'feature')
+    from ..terms import Canon as _Canon
+    _cn = _Canon(m, None, inline=False)
+
+    def series_add(t):
+        # Series.add(x) is `+` (element-wise concatenation of string columns)
+        if isinstance(t, tuple):
+            t = tuple(series_add(x) for x in t)
+            if t[:1] == ('call',) and isinstance(t[1], tuple) and t[1][:1] == ('attr',) and t[1][2] in ('add', '__add__') and len(t[2]) == 1 and not t[3]:
+                return _cn._add([t[1][1], t[2][0]])
+        return t
+    enc = alpha_norm(series_add(_rep(elt, cv, P)))
+    val = ('call', ('attr', ('sub', ('name', frame), P), 'astype'), (('name', 'str'),), ())
+    X = lambda src: expected_term(m, src, {'V': val, 'F': ('name', frame), 'feature': P})
+    self_delimiting = []
+    for sep in (':', '|', '#', ';', ',', ' ', '/', '\x1f', '_', '-'):
+        self_delimiting += [X(f"V.str.len().astype(str) + {sep!r} + V"), X(f"V.map(len).astype(str) + {sep!r} + V"), X(f"V.apply(len).astype(str) + {sep!r} + V")]
+    self_delimiting += [X('V.map(repr)'), X('V.apply(repr)'), X('F[feature].map(repr)')]
+    no_terminator = [X('V.str.len().astype(str) + V'), X('V.map(len).astype(str) + V')]
+    raw_forms = [val, X('F[feature]')]
+    sep_forms = []
+    for sep in (':', '|', '#', ';', ',', ' ', '/', '_', '-', ' AND '):
+        sep_forms += [X(f'{sep!r} + V'), X(f'V + {sep!r}')]
+    shown = show(enc)[:160]
+    if enc in self_delimiting:
+        chk.ok('C10.1a', 'R12', site, shown, 'every constituent is encoded by the same self-delimiting encoder; the concatenation is uniquely decodable')
+    elif enc in raw_forms or enc in no_terminator:
+        chk.bad('C10.1a', 'R12', site, shown, "a constituent enters the hashed key as raw string value (or with a length prefix without a non-digit terminator): different value tuples such as ('1', '11') and ('11', '1') yield the same string, hence the same interaction value (every constituent must pass through the self-delimiting part encoder)")
+    elif enc in sep_forms:
+        chk.bad('C10.1a', 'R12', site, shown, 'a constituent enters the hashed key with a constant separator without escaping: different value tuples such as (s + sep, t) and (s, sep + t) yield the same string, hence the same interaction value')
+    else:
+        chk.expect_term(enc, self_delimiting, 'C10.1a', 'R12', site, shown, '', f'cannot establish that this part of the key is self-delimiting: {shown}')
+    # the first constituent passes through the same encoder
+    itC = _rep(it, C, ('role', 'comb'))
+    if all_gen is not None:
+        chk.expect(itC == ('role', 'comb'), 'C10.1b', 'R13', site, show(it)[:80], 'every member of the combination contributes to the key',
+                   f'the key must be built from every element of the combination (all constituents the name mentions): it ranges over {show(it)[:80]}')
+    else:
+        want_first = alpha_norm(_rep(enc, P, ('sub', C, ('num', 0))))
+        rest_ok = it == ('sub', C, ('slice', ('num', 1), ('none',), ('none',)))
+        if first != want_first and rest_ok:
+            fraw = first in (E(f'{frame}[{comb}[0]].astype(str)'), E(f'{frame}[{comb}[0]]'))
+            if fraw:
+                chk.bad('C10.1a', 'R12', site, show(first)[:140], "the first constituent enters the hashed key as raw string value, no delimiter: different value tuples such as ('1', '11') and ('11', '1') yield the same string (every constituent, including the first, must pass through the self-delimiting part encoder)")
+            else:
+                chk.expect_term(first, [want_first], 'C10.1b', 'R13', site, show(first)[:140], '', 'the first constituent is not encoded like the others')
+        else:
+            chk.expect(first == want_first and rest_ok, 'C10.1b', 'R13', site, f'first: {show(first)[:60]}; rest over {show(it)[:60]}', 'every member of the combination contributes to the key',
+                       'the key must be built from combination[0] and every element of combination[1:] (all constituents the name mentions): with another range some constituents are left out and rows that differ only there alias')
+    # ---- 2 / 6 digest
+    hfun = H
+    if H[0] in ('name', 'lib'):
+        # a named function applied to every row: evaluate it
+        target = repo.find_func(H[1]) if H[0] == 'lib' else m.funcs.get(fn.qualname + '.' + H[1]) or m.funcs.get(H[1])
+        if target is not None and len(returns(target)) == 1 and len(target.params) == 1:
+            hfun = ('lambda', 1, _rep(term_of(target, returns(target)[0].value, {target.params[0]: ('param', 0)}, inline=True), ('name', target.params[0]), ('param', 0)))
+    if hfun[0] != 'lambda' or hfun[1] != 1:
+        chk.unsure('C10.2a', 'R8', site, show(H)[:100], 'the function applied to the per-row key is not recognised')
+        return True
+    body = hfun[2]
+    hc = [x for x in walk_term(body) if isinstance(x, tuple) and x[:1] == ('call',) and x[1][0] == 'lib' and (x[1][1].startswith('xxhash.') or x[1][1].startswith('hashlib.') or x[1][1].startswith('zlib.'))]
+    hc += [x for x in walk_term(body) if isinstance(x, tuple) and x[:2] == ('call', ('name', 'hash'))]
+    chk.analysed['digest_constructions'] = len(hc)
+    if len(hc) != 1:
+        chk.unsure('C10.2a', 'R8', site, show(body)[:120], f'{len(hc)} digest constructions in the row function (expected one)')
+        return True
+    d = hc[0][1][1] if hc[0][1][0] == 'lib' else 'hash'
+    chk.expect(d in WIDE, 'C10.2a', 'R8', site, show(hc[0])[:100], 'digest has at least 64 bits', f'{d} has fewer than 64 bits: distinct value tuples collide far more often than the statement allows')
+    a0 = hc[0][2][0] if hc[0][2] else None
+    enc_ok = a0 is not None and a0[0] == 'call' and a0[1][0] == 'attr' and a0[1][2] == 'encode' and a0[1][1] == ('param', 0)
+    chk.expect(enc_ok, 'C10.6', 'API', site, show(hc[0])[:100], 'the key is encoded to bytes before hashing', 'xxhash >= 4 raises TypeError on str input (or the bytes hashed are not those of the key): interaction features cannot be built')
+    full_forms = [('call', ('attr', hc[0], 'hexdigest'), (), ()), ('call', ('attr', hc[0], 'intdigest'), (), ()), ('call', ('attr', hc[0], 'digest'), (), ())]
+    if d.endswith('digest'):
+        full_forms.append(hc[0])
+    chk.expect(body in full_forms, 'C10.2b', 'R8', site, show(body)[:120], 'the whole digest is the feature value', 'the digest is truncated / post-processed: fewer than 64 bits distinguish the value tuples')
+    # ---- 4 candidate space and one column per selected combination
+    space_rules(repo, chk, fn, frame, args, lp, res, st)
+    return True
+
+
+def space_rules(repo, chk, fn, frame, args, lp, res, st):
+    m = fn.module
+    E = lambda s_: expected_term(m, s_)
+    flag = fn.params[3] if len(fn.params) > 3 else 'is_3mr'
+    cs = [x for x in calls(fn) if (m.dotted(x.func) or '').startswith('itertools.')]
+    ok_space = False
+    if len(cs) == 1 and m.dotted(cs[0].func) == 'itertools.combinations' and len(cs[0].args) == 2:
+        cols = term_of(fn, cs[0].args[0], inline=True)
+        order = term_of(fn, cs[0].args[1], inline=True)
+        ok_cols = cols in (E(f'[x for x in {frame}.columns if x != {args}.label_column]'), E(f'[x for x in {frame} if x != {args}.label_column]'))
+        ok_ord = order == E(f'2 if {flag} else {args}.interaction_order')
+        ok_space = ok_cols and ok_ord
+    chk.expect(ok_space, 'C10.4a', 'R15', fn.site(cs[0]) if cs else fn.site(), ast.unparse(cs[0]) if cs else 'itertools.combinations(...)', 'candidates = k-subsets of the non-label columns (k = interaction order; 2 for 3MR relations)',
+               'the candidate space must be itertools.combinations(non-label columns, interaction_order)', soft=True)
+    samp = [x for x in calls(fn) if m.dotted(x.func) == f'{CR}.prior_combinations_sample']
+    base_it = lp.iter.args[0] if isinstance(lp.iter, ast.Call) and isinstance(lp.iter.func, ast.Name) and lp.iter.func.id == 'enumerate' and lp.iter.args else lp.iter
+    spdef = [n for n in own_nodes(fn.node) if isinstance(n, ast.Assign) and isinstance(n.targets[0], ast.Name) and samp and n.value is samp[0]]
+    unconditional = not any(isinstance(x, (ast.If, ast.Continue, ast.Break)) for x in ast.walk(lp))
+    ok_loop = bool(spdef) and isinstance(base_it, ast.Name) and base_it.id == spdef[0].targets[0].id and unconditional
+    chk.expect(ok_loop, 'C10.4b', 'R13', fn.site(lp), ast.unparse(lp.iter), 'one new column per selected combination, stored under its name', 'each selected combination must yield exactly one column stored under its own name', soft=not unconditional is False and not spdef)
+    chk.expect(len(samp) == 1 and bool(spdef) and isinstance(samp[0].args[0], ast.Name), 'C10.4c', 'R6', fn.site(samp[0]) if samp else fn.site(), ast.unparse(samp[0]).replace('\n', ' ')[:120] if samp else '', 'the candidate list is reduced only by the fair sampler',
+               'the candidate list must be passed through prior_combinations_sample (and nothing else drops candidates)', soft=True)
 
 
 CACHED = {}
